@@ -359,7 +359,8 @@ def gen_par_stage(rng, *, kinds=('prefetch', 'parmap'), backends=('t',),
 
 
 def gen_desc(rng, *, max_n=8, min_n=0, max_up=3, max_down=2, par_kw=None,
-             simple=False, source_kind=None, falsy_p=0.0, batched_p=0.0, user_stage_p=0.0):
+             simple=False, source_kind=None, falsy_p=0.0, batched_p=0.0, user_stage_p=0.0,
+             tile_p=0.0):
     """Generate a valid description: source, 'u0' map, upstream stages, one
     parallel stage, downstream stages."""
     par_kw = par_kw or {}
@@ -397,6 +398,13 @@ def gen_desc(rng, *, max_n=8, min_n=0, max_up=3, max_down=2, par_kw=None,
                   'val': rng.choice(['none', 'none', 'zero', 'empty', 'emptylist',
                                      'emptydict', 'false', 'excobj', 'stopiterobj',
                                      'filterobj'])}
+            b = abs_apply(a, st)
+            if b is not None:
+                desc['stages'].append(st)
+                a = b
+        if tile_p and rng.random() < tile_p:
+            # the very same upstream object several times in one concatenation
+            st = {'op': 'tile', 'reps': rng.randrange(2, 4)}
             b = abs_apply(a, st)
             if b is not None:
                 desc['stages'].append(st)
